@@ -22,6 +22,11 @@ structure OSt where
   whether the knowledge base was edited since — only used for the coverage tags -/
   prevExec : Nat := 0
   kbEdited : Bool := false
+  /-- an `execute_workflow` call was made: its per-step results are not observable, so the reference bookkeeping cannot be
+  carried across it; the rest of the history is covered by the model diff only -/
+  blind : Bool := false
+  /-- `set_debug_mode` was called since the previous execute (coverage tag only) -/
+  debugSet : Bool := false
 
 def findRule (rules : List Rule) (n : Nat) : Option Rule := rules.find? (fun r => r.name == n)
 
@@ -129,6 +134,7 @@ def checkExec (maxc t : Nat) (o : OSt) (ob : OpObs) : Except String OSt := do
   o := addTag o (o.prevExec != 0 && o.kbEdited) "exec_after_kb_edit"
   o := addTag o (o.prevExec == 2) "exec_after_bound"
   o := addTag o (o.prevExec == 3) "exec_after_err"
+  o := addTag o o.debugSet "exec_after_set_debug"
   match ob.res with
   | .ok c e f =>
     if !C03.countersOk maxc c e f names.length o.rules.length then .error "counters"
@@ -163,7 +169,7 @@ def checkExec (maxc t : Nat) (o : OSt) (ob : OpObs) : Except String OSt := do
   o := addTag o (fired.any (fun r => r.agenda.isSome && r.group != 0)) "grouped_fire"
   o := addTag o (ob.events.any (fun e => match e with | .act _ => true | _ => false)) "activate_action"
   o := addTag o (o.rules.any (fun r => !C03.refGate R' ob.active t r && r.cond.holds ob.facts)) "gate_blocks_true_rule"
-  pure { o with R := R', active := ob.active, pending := none, facts := ob.facts, kbEdited := false }
+  pure { o with R := R', active := ob.active, pending := none, facts := ob.facts, kbEdited := false, debugSet := false }
 
 def expectRes (ob : OpObs) (s : List String) : Except String Unit :=
   match ob.res with
@@ -179,7 +185,7 @@ def checkOp (maxc : Nat) (o : OSt) (op : Op) (ob : OpObs) : Except String OSt :=
     let o1 : OSt ← match op with
       | .focus g =>
         if ob.active != g then .error "focus_mismatch"
-        pure { o with R := { o.R with lk := o.R.lk.filter (fun p => p.1 ≠ g) } }
+        pure { addTag o (o.active == g && o.pending.isNone) "refocus_active" with R := { o.R with lk := o.R.lk.filter (fun p => p.1 ≠ g) } }
       | .activate g =>
         if ob.active != g then .error "focus_mismatch"
         pure { o with R := { o.R with lk := o.R.lk.filter (fun p => p.1 ≠ g) }, pending := some g }
@@ -195,10 +201,52 @@ def checkOp (maxc : Nat) (o : OSt) (op : Op) (ob : OpObs) : Except String OSt :=
       | _ => pure o
     pure (addTag { o1 with active := ob.active, facts := ob.facts } true "api_op")
 
-def checkAll (maxc : Nat) : OSt → List Op → List OpObs → Nat → Except String OSt
+/-- one public call (`C02.Call`) against its observation -/
+def checkCall (maxc : Nat) (o : OSt) (c : Call) (ob : OpObs) : Except String OSt := do
+  if o.blind then return o
+  match c with
+  | .op op => checkOp maxc o op ob
+  | .viaMut op => checkOp maxc (addTag o true "kb_mut") op ob
+  | .execNow => checkExec maxc nowT (addTag o true "execute_plain") ob
+  | .setAnalytics _ =>
+    if !ob.events.isEmpty then .error "events_outside_execute"
+    expectRes ob ["u"]
+    if ob.active != o.active then .error "focus_mismatch"
+    pure (addTag { o with facts := ob.facts } true "set_analytics")
+  | .setDebug _ =>
+    -- the letter of C03: the setter is not an execute and leaves focus and facts alone; the bound it must leave alone is
+    -- checked by `countersOk` on every later execute
+    if !ob.events.isEmpty then .error "events_outside_execute"
+    expectRes ob ["u"]
+    if ob.active != o.active then .error "focus_mismatch"
+    pure (addTag { o with debugSet := true, facts := ob.facts } true "set_debug")
+  | .kbClear =>
+    if !ob.events.isEmpty then .error "events_outside_execute"
+    expectRes ob ["u"]
+    if ob.active != o.active then .error "focus_mismatch"
+    pure (addTag { o with rules := [], kbEdited := o.kbEdited || !o.rules.isEmpty, facts := ob.facts } true "kb_clear")
+  | .wfStep g =>
+    -- `set_agenda_focus(g)` (a new activation of `g`), then `execute`
+    let o1 := { o with R := { o.R with lk := o.R.lk.filter (fun p => p.1 ≠ g) }, active := g }
+    checkExec maxc nowT (addTag (addTag o1 (o.active == g) "refocus_active") true "workflow_step") ob
+  | .workflow gs =>
+    match ob.res with
+    | .err => pure { addTag o true "workflow" with blind := true }
+    | .other r =>
+      match (r.drop 1).toString.toNat? with
+      | some k =>
+        if !r.startsWith "w" then .error s!"bad_result:{r}"
+        if k > gs.length || (k = 0 && !gs.isEmpty) then .error "workflow_steps"
+        -- each step is one `execute`: at most `max_cycles` passes over the knowledge base (`C03.countersOk` per step)
+        if (firedNames ob.events).length > k * maxc * o.rules.length then .error "workflow_counters"
+        pure { addTag o true "workflow" with blind := true }
+      | none => .error s!"bad_result:{r}"
+    | _ => .error "bad_result"
+
+def checkAll (maxc : Nat) : OSt → List Call → List OpObs → Nat → Except String OSt
   | o, [], [], _ => .ok o
   | o, op :: ops, ob :: obs, i =>
-    match checkOp maxc o op ob with
+    match checkCall maxc o op ob with
     | .ok o' => checkAll maxc o' ops obs (i + 1)
     | .error c => .error s!"{c}@{i}"
   | _, _, _, _ => .error "length"
